@@ -354,6 +354,8 @@ fn wire_stop_hooks(puppets: &[Box<dyn PuppetCtl>], attachers: &[Arc<dyn Fn() + S
                 p.set_stop_hook(Arc::new(move || {
                     if what == 0 {
                         other.greet_all();
+                    } else if what == 3 {
+                        other.finish_all();
                     } else {
                         other.emit_all();
                     }
